@@ -113,3 +113,7 @@ Proof.
 Qed.
 
 End L.
+
+Lemma Forall2_length {A B} (R : A -> B -> Prop) l l' : Forall2 R l l' -> length l = length l'.
+Proof. induction 1; simpl; auto. Qed.
+
